@@ -7,7 +7,8 @@ odak.raytracing.intersect_parametric (secant iteration)
    g_sec_stop_k            the tests of the `if ...: return False, False` statements inside the loop
    g_sphere_err, g_cyl_err intersection_kernel_for_parametric_surfaces with sphere_function / cylinder_function
 odak.learn.raytracing.intersect_w_sphere (fixed number of optimiser steps)
-   g_ts_test, g_ts_check   the residual `test` and the flag `check` as functions of the current distance
+   g_ts_test, g_ts_check   the residual `test` (distance before the last optimiser step) and the flag `check`
+                           (also a function of the distance after it)
 The shape of both functions around these pieces is checked structurally (`shape_*`).
 """
 import ast, os
@@ -123,9 +124,11 @@ def trace():
     ti = shape_torch_sphere()
     ns2 = shim.base_namespace()
     shim.load('odak/learn/raytracing/ray.py', ['propagate_ray'], ns2)
-    _fn('ts_flag', ['ray', 'sphere', 'distance', 'error_threshold'], ti['stmts'] + [_ret(['test', 'check'])], ns2, ti['path'])
-    test, check = ns2['ts_flag'](shim.sym('r', (1, 2, 3)), shim.sym('s', (1, 4)), shim.sym('x', (1,)), shim.var('thr'))
+    # `test` is computed from the distance BEFORE the last optimiser step, `check` after it: two symbols
+    rebind = ast.parse('distance = distance_after').body[0]
+    _fn('ts_flag', ['ray', 'sphere', 'distance', 'distance_after', 'error_threshold'], ti['stmts'][:2] + [rebind, ti['stmts'][2]] + [_ret(['test', 'check'])], ns2, ti['path'])
+    test, check = ns2['ts_flag'](shim.sym('r', (1, 2, 3)), shim.sym('s', (1, 4)), shim.sym('x', (1,)), shim.sym('y', (1,)), shim.var('thr'))
     SP1 = shim.names('s', (1, 4))
-    g.add('g_ts_test', RAY + SP1 + ['x_0'], test[0]); g.add('g_ts_check', RAY + SP1 + ['x_0', 'thr'], shim.B.lift(check[0]))
+    g.add('g_ts_test', RAY + SP1 + ['x_0'], test[0]); g.add('g_ts_check', RAY + SP1 + ['x_0', 'y_0', 'thr'], shim.B.lift(check[0]))
     info['torch_sphere_defaults'] = ti['defaults']
     return g, info
